@@ -6,6 +6,7 @@ import re
 
 from .. import core, realcode
 from .execmodel_shim import col_letters
+from . import lexmodel
 
 TITLE_POOL = ['Data', 'Sheet 2', "it's", 'A1', 'SUM', 'Лист', '1st', 'x!y', 'IF', 'TRUE', 'a.b', 'a-b', "''", 'a,b', 'a(b)', 'a"b', 'B2:C3', "o'", 'Σ data', '2024']
 
@@ -119,9 +120,11 @@ def run(tier, seed):
                 'order; one sheet up to 16384 columns wide) whose every cell holds a number encoding (sheet, column, row), with holes; formulas on every sheet: single cells, '
                 'row / column / rectangular / single-cell areas, areas reaching beyond the used range, whole-column areas, all $ forms, bare / plain-title / quoted-title '
                 'prefixes (apostrophes doubled), columns at 26-boundaries up to XFD, rows to 5 digits, wrapped in SUM / COUNT / INDEX; the same unprefixed text repeated on other sheets; unknown titles; every formula evaluated through three '
-                'routes: class translated from its own cell, class of the whole workbook, whole-workbook class with 2-5 cells (holes and blank rows included) overridden. Oracle: decode the '
+                'routes: class translated from its own cell, class of the whole workbook, whole-workbook class with 2-5 cells (holes and blank rows included) overridden. the three reference token classes on spellings and near misses (<class>.get vs the Lean scanners). Oracle: decode the '
                 'planted numbers (Python) and the Lean model of fetch / get_matrix (same request). distinct = distinct (workbook, formula)')
-    chk.assumptions += ['reference spellings are lexed by the repository\'s regexes, which are not modelled in Lean (Tie B only: the value observed through the public API)',
+    chk.assumptions += ['the three reference regexes are modelled by hand-written scanners (Model/Lex.lean) pinned to their regex sources (reference_regexes_pinned) and compared with '
+                        '<class>.get on spellings and near misses; \\w \\d are modelled on ASCII + Cyrillic letters; the CellIdentifierRangeToken scanner is covered by Tie B only '
+                        '(no read-back theorem: in Lexer.TOKENS order the matrix class shadows it)',
                         'reversed corners (B2:A1), 3-D references and defined names are outside the grammar and not generated']
     chk.build = core.lean_build(['C02'], tier)
     if not chk.build.driver_ok:
@@ -257,6 +260,8 @@ def run(tier, seed):
                         if got != want:
                             chk.violation(dict(meta, why='INDEX over a whole-column area does not address row 1 of the last column', impl=got, want=want, stream='oracle'))
     chk.judge('references', cases, sample_cap=4)
+    core.import_repo()
+    lexmodel.run_ref_scanners(chk, tier)
     externals(chk)
     return chk.finish()
 
